@@ -113,6 +113,23 @@ CHECKS['C06'] = ('DESIGN.md#C06',
     'globals (no source hook); OS-level races inside concurrent.futures are '
     'only touched by the thorough tier real-pool runs.')
 
+CHECKS['C07'] = ('DESIGN.md#C07',
+    'Hypothesis-generated images/label maps (touching, nested, ring, '
+    'single-pixel, thin, non-consecutive)/masks/errors/backgrounds/'
+    'convolved data vs. direct evaluation of the defining formulas; '
+    'metamorphic footprint-independence, label-renumbering and subset '
+    'relations',
+    'Generated-input search: every listed column of every source is '
+    'recomputed directly from the pixel set {label, unmasked, finite} '
+    '(sums, extrema and raster-first indices, boxes, background sums) and '
+    'from the documented moment image (centroid, regularised covariance, '
+    'closed-form eigen-decomposition, shape ratios, ellipse coefficients); '
+    'rows must be bit-identical when only pixels outside the reported '
+    'measurement footprint change, under label renumbering, and in catalogs '
+    'built on keep_labels subsets. Held on N cases; not a proof.',
+    'Trusted: numpy. With a local background only the flux/area relation '
+    'and footprint independence are asserted. Pixel values up to 1e30.')
+
 NOT_APPLICABLE = []
 
 
